@@ -19,7 +19,9 @@ LEVEL_TEXT = (
     "is answered according to the n-th letter of a behaviour string over {ok, lost, late 1.5 s, duplicate, stale (previous counter), "
     "other channel, error status}; ALL strings up to the stated length are run for 3 sends issued sequentially, concurrently and "
     "staggered, with and without auto-reconnect; every string up to a shorter bound is also run with a server DisconnectRequest "
-    "injected at every event-loop iteration of its own baseline run. Plus counter wrap-around runs (300 sends) over UDP and TCP "
+    "injected at every event-loop iteration of its own baseline run (and in the middle of every sleep), combined with handshake "
+    "faults of the reconnect (ConnectResponse late by 0.01/0.5/0.7/0.9/1.2/2.5 s, first one lost, DisconnectResponse lost) and "
+    "with route_back / a route-back data endpoint. Plus counter wrap-around runs (300 sends) over UDP and TCP "
     "with random faults. Bounded exhaustive fault enumeration; the bound is the behaviour-string length."
 )
 LEVEL_NOTE = (
@@ -39,12 +41,29 @@ LETTERS = {"o": "ok", "l": "lost", "t": "late", "d": "dup", "s": "stale", "w": "
 MODES = ("seq", "conc", "stag", "seq-noauto")
 
 
+CONNECT_FAULTS = ("d0.01", "d0.5", "d0.7", "d0.9", "d1.2", "d2.5", "lost1", "disc-lost")
+
+
 def run_case(script, mode="seq", n_sends=3, inject_at=None, transport="udp", faults=None, auto_reconnect_wait=3,
-             server_disc_after_tx=None):
-    """Run one scenario; returns (history, iterations, driver error)."""
+             server_disc_after_tx=None, inject_frac=0.0, connect_fault=None, route_back=False, gw_route_back=False):
+    """Run one scenario; returns (history, iterations, driver error).
+
+    connect_fault shapes the handshakes of RE-connections (the user's first connect() is answered promptly):
+    dX = ConnectResponse X seconds late (X < 1: every reconnect; X >= 1, i.e. beyond the client's timeout: the first one),
+    lost1 = first reconnect ConnectResponse lost, disc-lost = the client's DisconnectRequests stay unanswered.
+    """
     loop = new_loop()
     inj = IterationInjector(loop)
     gw = Gateway(loop)
+    gw.data_endpoint_route_back = gw_route_back
+    if connect_fault is not None:
+        if connect_fault.startswith("d") and connect_fault[1].isdigit():
+            delay = float(connect_fault[1:])
+            gw.connect_policy = lambda n, b: "ok" if n == 0 or (delay >= 1.0 and n > 1) else delay
+        elif connect_fault == "lost1":
+            gw.connect_policy = lambda n, b: "silent" if n == 1 else "ok"
+        elif connect_fault == "disc-lost":
+            gw.disc_policy = lambda n, b: "silent"
     if faults is not None:
         fl = {int(k): v for k, v in faults.items()}
         gw.ack_policy = lambda n, body: LETTERS[fl[n]] if n in fl else "ok"
@@ -53,14 +72,14 @@ def run_case(script, mode="seq", n_sends=3, inject_at=None, transport="udp", fau
     auto = mode != "seq-noauto"
 
     def inject():
-        if gw.channel is None:
+        if not gw.is_open:  # the server only disconnects a connection it has confirmed to the client
             gw.note("inject_skipped")
             return
         gw.note("inject_server_disconnect")
         gw.send_disconnect_request()
 
     if inject_at is not None:
-        inj.at(inject_at, inject)
+        inj.at(inject_at, inject, inject_frac)
     if server_disc_after_tx:
         def on_tx(t, kind, info):
             if kind == "tx" and info.get("type") == "TunnellingRequest" and gw.n_treq in server_disc_after_tx:
@@ -82,11 +101,16 @@ def run_case(script, mode="seq", n_sends=3, inject_at=None, transport="udp", fau
         xknx = XKNX()
         if transport == "udp":
             tunnel = UDPTunnel(xknx, cemi_received_callback=lambda raw: None, gateway_ip="10.0.0.2", gateway_port=3671,
-                               local_ip="10.0.0.1", auto_reconnect=auto, auto_reconnect_wait=auto_reconnect_wait)
+                               local_ip="10.0.0.1", route_back=route_back, auto_reconnect=auto,
+                               auto_reconnect_wait=auto_reconnect_wait)
         else:
             tunnel = TCPTunnel(xknx, cemi_received_callback=lambda raw: None, gateway_ip="10.0.0.2", gateway_port=3671,
                                auto_reconnect=auto, auto_reconnect_wait=auto_reconnect_wait)
-        await tunnel.connect()
+        try:
+            await tunnel.connect()
+        except CommunicationError:
+            gw.note("initial_connect_failed")
+            return
         if mode in ("seq", "seq-noauto"):
             for i in range(n_sends):
                 await send(tunnel, i + 1)
@@ -108,14 +132,16 @@ def run_case(script, mode="seq", n_sends=3, inject_at=None, transport="udp", fau
         err = repr(exc)
     finally:
         loop.finish()
-    return gw.log, inj.now, err
+    return gw.log, inj.now, err, list(inj.sleeps)
 
 
 def judge_history(log, udp=True):
     """Oracle over one chronological history. Returns (list of (mechanism, detail), stats)."""
     problems = []
     stats = {"tx_requests": 0, "acks_delivered": 0, "epochs": 0, "send_ok": 0, "send_fail": 0, "repetitions": 0,
-             "foreign_acks_delivered": 0, "requests_on_closed_channel_recorded": 0}
+             "foreign_acks_delivered": 0, "requests_on_closed_channel_recorded": 0,
+             "requests_to_announced_data_endpoint_recorded": 0, "requests_sent_elsewhere_recorded": 0}
+    endpoint = None
     epoch = 0
     epoch_ch = None
     tags_in_epoch = []  # order of first transmission
@@ -131,6 +157,7 @@ def judge_history(log, udp=True):
         if kind == "rx" and typ == "ConnectResponse" and info["status"] == "E_NO_ERROR":
             epoch += 1
             epoch_ch = info["ch"]
+            endpoint = info.get("data_endpoint") or ["10.0.0.2", 3671]
             tags_in_epoch = []
             phantom = offset = 0
             stats["epochs"] += 1
@@ -140,6 +167,9 @@ def judge_history(log, udp=True):
             seq, ch = info["seq"], info["ch"]
             if ch != epoch_ch:
                 stats["requests_on_closed_channel_recorded"] += 1
+            if udp:
+                stats["requests_to_announced_data_endpoint_recorded" if info.get("to") == endpoint
+                      else "requests_sent_elsewhere_recorded"] += 1
             if tag not in tags_in_epoch:
                 expected = (len(tags_in_epoch) + offset) & 0xFF
                 with_phantom = (len(tags_in_epoch) + phantom) & 0xFF
@@ -249,7 +279,7 @@ def brief(log, limit=60):
 
 def judge_case(ctx, script, mode, inject_at=None, transport="udp", n_sends=3, sample=False, **kw):
     ctx.ev()
-    log, iters, err = run_case(script, mode, n_sends=n_sends, inject_at=inject_at, transport=transport, **kw)
+    log, iters, err, _sleeps = run_case(script, mode, n_sends=n_sends, inject_at=inject_at, transport=transport, **kw)
     if err is not None:
         ctx.count("driver_did_not_finish_recorded")
     problems, stats = judge_history(log, udp=transport == "udp")
@@ -258,6 +288,16 @@ def judge_case(ctx, script, mode, inject_at=None, transport="udp", n_sends=3, sa
     if inject_at is not None and any(kind == "inject_server_disconnect" for _t, kind, _i in log):
         ctx.count("server_disconnects_injected")
     ctx.count(f"runs_{mode}_{transport}")
+    if kw.get("connect_fault"):
+        ctx.count(f"runs_connect_fault_{kw['connect_fault']}")
+        if any(k == "rx" and i.get("type") == "ConnectResponse" for _t, k, i in log[3:]):
+            ctx.count("reconnects_completed_under_connect_fault")
+    if kw.get("route_back"):
+        ctx.count("runs_route_back")
+    late = sum(1 for (_t, k, i), (_t2, k2, i2) in zip(log, log[1:])
+               if k == "send_fail" and k2 == "rx" and i2.get("type") == "ConnectResponse")
+    if late:
+        ctx.count("connect_response_right_after_failed_send", late)
     ctx.distinct((transport, mode, shape(log)))
     if sample:
         ctx.sample({"script": script, "mode": mode, "shape": shape(log)}, cap=6)
@@ -291,7 +331,9 @@ def run(ctx):
                 "the baseline; 300-send wrap runs (UDP with sparse faults, TCP with server disconnects); distinct = (transport, mode, "
                 "event-kind string of the wire history)")
     ctx.require("tx_requests", "acks_delivered", "repetitions", "epochs", "send_ok", "send_fail", "foreign_acks_delivered",
-                "server_disconnects_injected", "runs_conc_udp", "runs_seq_tcp")
+                "server_disconnects_injected", "runs_conc_udp", "runs_seq_tcp", "runs_route_back",
+                "reconnects_completed_under_connect_fault", "connect_response_right_after_failed_send",
+                *(f"runs_connect_fault_{cf}" for cf in CONNECT_FAULTS))
     assert set(LETTERS.values()) == set(ACK_BEHAVIOURS)
     i = 0
     for script in all_scripts(n_all):
@@ -309,9 +351,21 @@ def run(ctx):
             i += 1
             if not ctx.mine(i):
                 continue
-            _log, iters, _err = run_case(script, mode)
+            _log, iters, _err, sleeps = run_case(script, mode)
             for k in range(iters):
                 judge_case(ctx, script, mode, inject_at=k)
+            # the same, with slow / lost handshakes of the reconnect, route_back, and in the middle of sleeps
+            points = [(k, 0.0) for k in range(iters)] + [(k, 0.5) for k in sleeps]
+            variants = [{"connect_fault": cf} for cf in CONNECT_FAULTS] + [{"route_back": True}, {"gw_route_back": True}]
+            if ctx.quick and script not in ("", "l", "ll", "lt"):
+                variants = [{"connect_fault": "d0.7"}, {"connect_fault": "lost1"}]
+            for k, frac in points:
+                for kw in variants:
+                    if kw.get("connect_fault") is None and frac:
+                        continue
+                    judge_case(ctx, script, mode, inject_at=k, inject_frac=frac, **kw)
+            for kw in variants:  # reconnects the client starts itself (two lost ACKs) under the same handshakes
+                judge_case(ctx, script, mode, **kw)
 
     # wrap-around: 300 sends
     rng = ctx.rng
